@@ -23,6 +23,20 @@ def _rand_bytes(rng, n):
 
 
 def cases(rng, tier):
+    # numbers whose base-58 digit string has an INTERIOR run of the zero digit, at every alignment and length
+    # (block-wise or padded encoders lose or invent such digits), and runs of the top digit
+    for start in list(range(1, 32)) + [40, 50, 60, 100]:
+        for ln in ([1, 2, 4, 5, 6, 9, 10, 11] if tier == "quick" else range(1, 25)):
+            for fill in (0, 57):
+                digits = [rng.randrange(1, 58) for _ in range(start)] + [fill] * ln + [rng.randrange(1, 58) for _ in range(rng.randint(1, 6))]
+                digits.reverse()            # most significant first
+                n_ = 0
+                for d_ in digits:
+                    n_ = n_ * 58 + d_
+                bs = n_.to_bytes((n_.bit_length() + 7) // 8, "big")
+                yield "b58e " + hx(bs), "interior-digit-run"
+                if fill == 0 and ln in (5, 10):
+                    yield "b58d " + sx("".join(B58[d_] for d_ in digits)), "interior-digit-run-decode"
     n_rand = 1500 if tier == "quick" else 60000
     # corpus / boundaries
     fixed = [b"\x00", b"\x01", b"\x39", b"\x3a", b"\xff", b"\x00\x00", b"\x00\x01", b"\x01\x00",
